@@ -52,6 +52,10 @@ Steps(st, op, D) ==
          \cup (IF "C13.reader_transaction_snapshot" \in D THEN {R(t, Obs("rows", -1, VisibleSnap(st, op.c)))} ELSE {})
     [] op.k = "fail" ->      \* a statement that fails inside or outside a transaction changes nothing
          {R(Touch(st, op.c), Obs("err", -1, {}))}
+    [] op.k = "noise" ->     \* something that is neither DML nor a transaction statement: no effect on any transaction
+         \*  withblock: "with conn: pass" (entering / leaving the connection's context manager);  cursorctx: a cursor used as a
+         \*  context manager for SELECT 1;  setvar: SET of a session variable;  usesame: USE SCHEMA <the current schema>
+         {R(st, Obs("ok", -1, {})), R(Touch(st, op.c), Obs("ok", -1, {}))}
     [] op.k \in {"commit", "rollback"} ->
          LET com == IF op.k = "commit" THEN (st.committed \ x.del) \cup x.add ELSE st.committed
              s2 == [st EXCEPT !.committed = com, !.s[op.c] = Idle] IN
@@ -60,8 +64,11 @@ Steps(st, op, D) ==
          ELSE {R(st, Obs("ok", -1, {}))}       \* outside a transaction: success status row, no effect
 
 \* ---- vocabulary ----
-CONSTANTS CursUsed
-Ops(st) ==
+CONSTANTS CursUsed, ThUsed, NoiseUsed
+\* th: the thread that makes the call - the one that opened the connection ("main") or another one ("other"), strictly one after
+\* the other; a transaction belongs to its connection, not to a thread
+WithTh(S) == UNION {{[f \in DOMAIN o \cup {"th"} |-> IF f = "th" THEN t ELSE o[f]] : t \in ThUsed} : o \in S}
+Ops(st) == WithTh(
   UNION {
     (IF st.s[c].tx THEN {} ELSE [k : {"begin"}, c : {c}, u : CursUsed])    \* nested BEGIN is outside the property's scope
     \cup [k : {"sel", "fail"}, c : {c}, u : CursUsed]
@@ -69,7 +76,8 @@ Ops(st) ==
     \* how: the value is written by INSERT or by a MERGE with a NOT MATCHED clause (same meaning, other code path)
     \cup [k : {"ins"}, c : {c}, u : CursUsed, v : OwnVals(c) \ Visible(st, c), how : {"insert", "merge"}]
     \cup [k : {"del"}, c : {c}, u : CursUsed, v : OwnVals(c) \cap Visible(st, c)]
-    : c \in Conn}
+    \cup [k : {"noise"}, c : {c}, u : CursUsed, w : NoiseUsed]
+    : c \in Conn})
 IsErr(r) == r.obs.res = "err"
 
 \* ---- C13 on the model ----
@@ -86,5 +94,7 @@ StepOk(st, op, r) ==
   /\ \A c \in Conn \ {op.c} : r.post.s[c] = st.s[c]
   \* NoOpCommit: COMMIT / ROLLBACK outside a transaction succeed with the status row and change nothing
   /\ (op.k \in {"commit", "rollback"} /\ ~x.tx /\ op.api = "sql" => r.obs.res = "ok" /\ r.post = st)
+  /\ (op.k = "noise" => r.obs.res = "ok" /\ r.post.committed = st.committed /\ r.post.s[op.c].tx = x.tx
+                         /\ r.post.s[op.c].add = x.add /\ r.post.s[op.c].del = x.del)
   /\ (op.k = "fail" => r.post.committed = st.committed /\ r.post.s[op.c].add = x.add /\ r.post.s[op.c].tx = x.tx)
 =============================================================================
